@@ -14,6 +14,10 @@ Lemma schema_ok_species : wf_schema schema_species = true /\ forallb (fun syn : 
                           /\ length schema_species = 5%nat.
 Proof. vm_compute. repeat split. Qed.
 
+Lemma schema_ok_reaction : wf_schema schema_reaction = true /\ forallb (fun syn : list str => match syn with [] => false | _ => true end) schema_reaction = true
+                           /\ length schema_reaction = 5%nat.
+Proof. vm_compute. repeat split. Qed.
+
 Lemma nonempty_of_forallb (sc : schema) : forallb (fun syn : list str => match syn with [] => false | _ => true end) sc = true ->
   forall syn, In syn sc -> syn <> [].
 Proof. intros H syn Hin. rewrite forallb_forall in H. specialize (H syn Hin). destruct syn; [discriminate|discriminate]. Qed.
@@ -101,5 +105,31 @@ Section WithFloat.
     destruct (read_envq_write dimD _ HD) as (D' & ED & QD). destruct (read_envq_write dimDensity _ Hdens) as (N' & EN & QN).
     rewrite ED, EN, read_envb_write.
     eexists. split; [reflexivity|]. repeat split; try reflexivity; assumption.
+  Qed.
+  (* ---- reactions ---- *)
+  Definition eq_equiv (e e' : side * side) : Prop :=
+    side_order (fst e') = side_order (fst e) /\ side_order (snd e') = side_order (snd e) /\
+    forall l, coef_of l (fst e') = coef_of l (fst e) /\ coef_of l (snd e') = coef_of l (snd e).
+  Definition reaction_equiv (r r' : reaction_obj F) : Prop :=
+    ro_label F r = ro_label F r' /\ eq_equiv (ro_eq F r) (ro_eq F r') /\ envq_equiv (ro_kf F r) (ro_kf F r')
+    /\ envq_equiv (ro_kr F r) (ro_kr F r') /\ ro_units F r = ro_units F r'.
+  Definition wf_reaction (r : reaction_obj F) : Prop :=
+    all_ok (fst (ro_eq F r)) /\ all_ok (snd (ro_eq F r)) /\ NoDup (map fst (fst (ro_eq F r))) /\ NoDup (map fst (snd (ro_eq F r)))
+    /\ match ro_label F r with Some l => valid_label l = true | None => True end
+    /\ envq_dim (kdim_of (side_order (fst (ro_eq F r)))) (ro_kf F r) /\ envq_dim (kdim_of (side_order (snd (ro_eq F r)))) (ro_kr F r).
+
+  Theorem reaction_roundtrip parent (r : reaction_obj F) : wf_reaction r ->
+    exists r', read_reaction F parse_float zero parent (write_reaction F print_float wr r) = Ok r' /\ reaction_equiv r r'.
+  Proof.
+    intros (H1 & H2 & N1 & N2 & HL & Hkf & Hkr). destruct schema_ok_reaction as (Hwf & Hne & Hlen). unfold read_reaction, write_reaction, wr.
+    rewrite (write_then_read jv schema_reaction _ Hwf) by (try (cbn [length]; rewrite Hlen; reflexivity); apply nonempty_of_forallb; exact Hne).
+    destruct (parse_print_eq_order (ro_eq F r) H1 H2 N1 N2) as (e' & Ee & O1 & O2 & Ce). rewrite Ee.
+    assert (L : read_label (Some (match ro_label F r with Some l => JStr l | None => JNull end)) = Ok (ro_label F r)).
+    { destruct (ro_label F r) as [l|]; cbn [read_label]; [rewrite HL|]; reflexivity. }
+    rewrite L. unfold read_units_field. change (write_usys (write_fields jv) (ro_units F r)) with (write_usys wr (ro_units F r)).
+    assert (U : read_usys (write_usys wr (ro_units F r)) = Ok (ro_units F r)) by apply usys_roundtrip.
+    unfold write_usys in U |- *. rewrite U. rewrite O1, O2.
+    destruct (read_envq_write _ _ Hkf) as (kf' & Ef & Qf). destruct (read_envq_write _ _ Hkr) as (kr' & Er & Qr).
+    rewrite Ef, Er. eexists. split; [reflexivity|]. repeat split; try reflexivity; try assumption; apply Ce.
   Qed.
 End WithFloat.
